@@ -218,6 +218,12 @@ class C10(Prop):
                 acc.ev()
                 resp = await cl.api.get_schedules()
                 self._judge_set(acc, resp.schedules, recs, zone, "api.get_schedules")
+                from ..monitors.keepsake import Keep
+
+                keep = Keep(limit=40)
+                keep.add(resp, "the first listing returned on this connection")
+                for s_ in resp.schedules:
+                    keep.add(s_, f"schedule {s_.schedule_id} of the first listing")
                 acc.count("records_parsed_via_api", len(recs))
                 if i % 3 == 0:
                     # two devices listed at the same time by two API objects of one application (asyncio.gather); the second device
@@ -290,6 +296,7 @@ class C10(Prop):
                             which = "start" if have[0] != start else ("end" if have[1] != end else "days")
                             acc.violation(f"round-trip-changed:{which}", f"{zone} on {today}: created ({start},{end},{sorted(days)}) read back as "
                                           f"({have[0]},{have[1]},{sorted(have[2])})", {"zone": zone, "today": str(today)})
+                keep.verify(acc, "listed-schedule-changed-later", "the time later listings and created schedules had gone over the same connection")
             finally:
                 await cl.close()
         acc.count("cases")
